@@ -368,6 +368,22 @@ def run(ctx: Ctx) -> None:
     nb = visitors.body_only(ctx, "C02.R5")
     rep.floor("C02.R5", nb, 4)
 
+    # ---- R8: the call-site context ends at the call ------------------------------------------------------------------
+    from .c01 import context_extent
+    rep.rule("C02.R8", "the body text hashed as context of a kept call with run-time arguments stops at the end of that call: code below the call cannot "
+                       "influence the call and must not change its key")
+    n8 = 0
+    for (m_, n, kind, fn_, e_) in context_extent(ctx):
+        n8 += 1
+        desc = "the call-site context is bounded by the end line of the call"
+        if kind == "whole":
+            rep.bad("C02.R8", m_.qname, desc, m_.loc(n), [f"{m_.loc(n)}: `{unparse(n, 60)}` hashes every line of the caller",
+                    "editing a string literal four lines below `dds.keep(p, summarize, rows)` changes the key of that keep: summarize is executed again although nothing it can observe changed"],
+                    "context-whole-body", what="the context of a kept call covers the whole calling function")
+        else:
+            rep.ok("C02.R8", m_.qname, desc, m_.loc(n))
+    rep.floor("C02.R8", n8, 1)
+
     # ---- R7: committed paths are those of the latest evaluation -------------------------------------------------
     from .c04 import commit_rules
     rep.rule("C02.R7", "as C04.R1: the complete path map is committed on every evaluation, cache hit or not: the key a later evaluation reads through "
